@@ -7,6 +7,10 @@
 // _sort, which places error items first, keeps its body and gets a postcondition.  Unit entries_engine uses these contracts as the
 // assumed behaviour of EntryIter (`rest`, `arrange`).
 //@ prelude base errors iter path_abs
+// ASSUMED[collect]: Iterator::collect::<Vec<_>>() on an iterator calls its next() until it returns None and returns the items in order
+// ASSUMED[boxed-iter]: the boxed inner iterator is a queue (vec::IntoIter, Chain of two vec::IntoIter, the backend lister): next() pops the front
+// ASSUMED[entry-accessors]: VfsEntry::is_dir / is_symlink return the stored fields; follow(true) twice equals follow(true) once (follow.swaps_once, unit entry_follow)
+// ASSUMED[callbacks-are-functions]: the comparator passed to sort / dirs_first / files_first answers as a function of its two arguments
 
 use core::cmp::Ordering;
 pub type Out = RvResult<VfsEntry>;
